@@ -45,6 +45,6 @@ package sender
 
 // Plugin construction opens listeners and clients: outside the verified subset, assumed.
 //@ func (*PluginConfig).Instantiate
-//@ props C19
+//@ assumed
 //@ opaque
 //@ ensures result1 == nil ==> result0 != nil
